@@ -1121,6 +1121,11 @@ func (e *Entry) Augment(addErrors bool) (processed, skipped int) {
 			unapplied = append(unapplied, a)
 			continue
 		}
+		if !target.IsDir() {
+			e.errorf("%s: augment %s: target is a %s node and cannot have children", Source(a.Node), a.Name, target.Kind)
+			processed++
+			continue
+		}
 		// Augments do not have a prefix we merge in, just a node.
 		// We retain the namespace from the original context of the
 		// augment since the nodes have this namespace even though they
